@@ -196,7 +196,7 @@ def forall_ranges(bounds, body_fn, patterns_fn=None, names=None):
     return z3.ForAll(vs, z3.Implies(guard, body))
 
 
-def exists_ranges(bounds, body_fn, names=None):
+def exists_ranges(bounds, body_fn, names=None, patterns_fn=None):
     concs = [(_conc(lo), _conc(hi)) for lo, hi in bounds]
     if all(a is not None and b is not None for a, b in concs):
         rng = [range(a, b) for a, b in concs]
@@ -205,6 +205,12 @@ def exists_ranges(bounds, body_fn, names=None):
             return z3.Or(*out) if out else z3.BoolVal(False)
     vs = [z3.Int(fresh_name((names[i] if names else "e"))) for i in range(len(bounds))]
     guard = z3.And(*[z3.And(to_z3(lo, "int") <= v, v < to_z3(hi, "int")) for v, (lo, hi) in zip(vs, bounds)])
+    pats = patterns_fn(*vs) if patterns_fn else None
+    if pats:
+        try:
+            return z3.Exists(vs, z3.And(guard, to_z3(body_fn(*vs), "bool")), patterns=pats)
+        except z3.Z3Exception:
+            pass
     return z3.Exists(vs, z3.And(guard, to_z3(body_fn(*vs), "bool")))
 
 
